@@ -311,7 +311,7 @@ def main(argv):
         for k, r in undecided[:10]:
             print("# undecided: %s: %s" % (k, r[:300]))
         for k, n, g in open_unknown[:10]:
-            print("# open: %s %s" % (k, n))
+            print("# open: %s %s [%s]" % (k, n, ", ".join(sorted({str(o.get("backend")) for o in g["unknown"]}))[:200]))
         return 2
     return 0
 
